@@ -2,6 +2,7 @@ package main
 
 import (
 	"fmt"
+	"go/constant"
 	"go/token"
 	"go/types"
 	"sort"
@@ -25,18 +26,20 @@ func init() {
 			"K-delete-row — every mm.noteDelete(cl) is dominated by an mm.Set of a keyDeleted row on the same mm whose key parts are cl.Target(), cl.ClaimDateString(), cl.Blob().BlobRef() in the order kvDeleted reads them (or by a successful call of a function all of whose success returns are so dominated), and every keyDeleted row put into mm is followed on all paths by noteDelete on that mm. " +
 			"K-live — in every caller of Index.commit/Corpus.addBlob (today ReceiveBlob only): addBlob receives the same mutationMap commit wrote, is dominated by commit's success, runs under the index write lock, and every path from a successful commit to a success return passes addBlob unless the corpus is nil; commit applies mm.deletes to the index cache only after CommitBatch succeeded and writes every (k,v) of mm.kv into the batch it commits; rows of a kind the corpus merges are never written to the store behind the corpus's back (direct KeyValue.Set/Delete sites write only non-slurped kinds; one reasoned exception); every success return of addBlob comes after its merge loops over mm.kv and mm.deletes (violated on the current tree by the duplicate-blob early return: a delete claim that arrived before its target is committed twice, the second time with its 'deleted' and 'claim' rows, and the live corpus skips that second mutation map). " +
 			"K-inval — derived live state is invalidated / re-derived when its inputs change. Generation-stamped caches are discovered, not named: a struct field of pkg/index (today lazySortedPermanodes.ofGen) that is compared with or assigned from an integer field of Corpus/Index (today Corpus.gen). (reader, #cache-protocol) a forward abstract interpretation of every function touching the cache fields (callees on the same cache object analysed in context) decides that content which may date from an older generation is returned, stored or passed on only on the stamp==generation edge, that a cache field is rebuilt only from such content, and that the stamp is assigned only the generation itself and only when every cache field it then vouches for was cleared, rebuilt, or is on that edge. (generation, #gen-store) every assignment of the generation on an existing corpus is `itself + positive constant`; its address is never handed out. (writer, #inval:T.f) the set of locations (struct field, or elements of a named map/slice type, of pkg/index and pkg/types/camtypes) read by the functions that compute the cache content is collected over the resolved call structure (static calls, the pnTime functions stored into the cache object, restricted-CHA invokes, callbacks; branches contradicted by constant string arguments such as signerFilter==\"\" are pruned); every write of such a location in a function reachable from Corpus.addBlob (static calls, the corpusMergeFunc dispatch, function parameters such as mutateFileInfo's fn; writes through map/slice parameters are attributed to the argument; sort.*/slices.Sort* count as in-place writes) must, on every path through addBlob that executes it, also pass an increment of the generation: the increment dominates the write in the same function, or every path from the write to a return of that function passes one, or (recursively) this holds at every call site up to addBlob; a callee that increments on all its paths counts as an increment; `go` never does. Both placements (once in addBlob, or in every writer) are accepted; an uncovered writer is reported with function and location. (#inval-outside) a write of such a location in any other module function is allowed only under scanFromStorage; (#load-on-fresh-corpus) scanFromStorage runs only on a Corpus its caller just allocated, which is why the load path needs no increment; (#no-cache-reader) no cache builder is reachable from addBlob/scanFromStorage (undecided otherwise). (#derived) PermanodeMeta fields assigned by restoreInvariants (attr, signer) are derived from the other receiver fields it reads (Claims): on the live path every write of Claims on an existing permanode is followed, on every path to a return with building==false, by a call on the same permanode of a method that writes attr/signer (or a direct assignment); Corpus.building is assigned only by scanFromStorage and false on its success returns. (#order-invariant / #order:T.f) order invariants are discovered, not named: every in-place sort (sort.Sort/Stable/Slice/SliceStable, slices.Sort*) executed under a load entry (scanFromStorage for the corpus; initDeletesCacheLocked for the index's own deletion cache) on a slice that is, is an element of, or is stored into a struct field of index/corpus state (today PermanodeMeta.Claims by claim date, Corpus.deletes[target] and deletionCache.m[target] by deletion date, newest first) makes `sorted by that comparator` an invariant of the field; the comparator is identified by what it computes — its Less method / less function rendered symbolically over SLICE, I, J (sort.Reverse swaps I and J), e.g. call((time.Time).Before;SLICE[I].Date;SLICE[J].Date) — not by its type name. Every write of such a field reachable from the live entry (addBlob with building == false; Index.commit) must either store a value that was sorted by the same symbolic comparator on every path to the store, or be followed on every path to the return of the writing function (and, when the written object is a parameter, of its callers up to the live entry) by one of: the same sort of the same field of the same object (directly, or a call handing on the object or the slice to a function all of whose returns are so covered); the in-order edge of a comparison of the last two elements by the comparator's own key (Less(len-2,len-1) true or Less(len-1,len-2) false, also written out on the key fields, with After for Before, through a one-line helper, or kept in a local) — accepted only while the slice is `sorted + exactly one appended element`; an edge on which len(field) < 2 (== 0, == 1, <= 1; if or switch) is known, the length and elements having been read after the last write. A return reached otherwise is reported as `the live path can leave T.f unsorted; the load path sorts it`; a live sort of the field by another comparator is reported too; element stores and writes through aliases are undecided. " +
-			"NOT decided: that the merge functions compute from a row the same state live as at load for every history (e.g. the `building`-only update of hasLegacySHA1; that fixupLastClaim's incremental attribute update equals restoreInvariants' full rebuild; the relative order of elements the comparator considers equal — sort.Sort is not stable and the load path sees row order, the live path arrival order; order invariants that the load path gets from the row order of the sorted.KeyValue rather than from an explicit sort), that every reader of the caches holds the index lock, that the read set is exact (it is an over-approximation by type: e.g. any FileInfo.Time write counts), generation increments placed in callers of addBlob (reported as uncovered), equality of query answers for any concrete arrival history or sorted.KeyValue backend, behaviour of out-of-order arrival beyond the order clause, contents of rows.",
+			"K-order-free — the result of merging a set of rows does not depend on the ORDER in which rows of different kinds are merged (a restart merges kind by kind in slurpPrefixes order, every 'meta' row before every other row; the live corpus merges in arrival order and, within one mutation map, in Go map order). Row kinds are the non-nil entries of corpusMergeFunc, each with its own resolved call structure (so mutateFileInfo's fn is that kind's closure only); *Corpus methods that addBlob / scanPrefix call directly join the kind whose merge function they reach (addKeyID: signerkeyid) or, when they write corpus state themselves, form the kind of rows merged outside the table (updateDeletes). For every function under a kind, every branch condition on which a write of corpus state (struct fields and elements of named map/slice types of pkg/index and camtypes, by type), a panic, or a call leading to one is (transitively) control dependent — control dependence from post-dominators, return and panic both exits —, and every non-nil error result of the kind's entry points, is sliced backwards through data AND control dependence: operands, phi selection, results of calls (returned values plus the conditions that select the return, the callee entered with a bounded call-string context so that a helper's parameters are those of the call under analysis), closures, captured variables, spilled locals, objects built in place and what callees store into them, parameters bound to the arguments at the kind's own call sites; code outside pkg/index/camtypes is taken to compute from its arguments only. The slice may reach only (1) the row (k, v, the mutation map), (2) locations no other kind's call structure writes (get-or-create of the kind's own entries, c.building, ...), (3) locations all of whose other writers belong to kinds merged first on BOTH paths — load: an explicit scanPrefix of that prefix success-dominates the scan that delivers this kind; live: a direct merger of that kind, given addBlob's mutation map, success-dominates the row dispatch (today only keyId, read when claims are merged). Anything else — c.blobs (filled by 'meta' rows) deciding whether a dirchild/fileinfo/imagesize/claim row or a deletion takes effect, c.files (fileinfo and filetimes), c.deletes, ... — is reported with the function, the location and its writers. What makes the helpers transparent is proved, not named: a field that is only ever read to be written back (brInterns) is no effect; a Corpus map all of whose updates are M[k] = k (strs) or M[v.f] = v with f never reassigned anywhere (blobs by .Ref), used only through its field, is an interning table, the maintenance of an identity table is no effect, and a function whose every return is the same function of one parameter — the parameter, a conversion of it, a constant it is known to equal, or what such a table holds under it on the `found` edge — passes on only that argument's dependences (br, str, strB); a field every load of which is preceded on all paths by the function's own stores (the scratch slice ss) carries the stored values; a zero-length reslice carries nothing. A read that only selects WHICH value is written (mutateFileInfo's read-modify-write of c.files, shared by fileinfo and filetimes) is listed as a note, not an obligation. " +
+			"NOT decided: that the merge functions compute from a row the same state live as at load for every history (e.g. the `building`-only update of hasLegacySHA1; that fixupLastClaim's incremental attribute update equals restoreInvariants' full rebuild; the relative order of elements the comparator considers equal — sort.Sort is not stable and the load path sees row order, the live path arrival order; order invariants that the load path gets from the row order of the sorted.KeyValue rather than from an explicit sort), that every reader of the caches holds the index lock, that the read set is exact (it is an over-approximation by type: e.g. any FileInfo.Time write counts), generation increments placed in callers of addBlob (reported as uncovered), equality of query answers for any concrete arrival history or sorted.KeyValue backend, behaviour of out-of-order arrival beyond the order and order-free clauses, contents of rows; for K-order-free: that the keyId entry a claim row consults is the one carried by the same mutation map (a fact of receive.go), order dependence through WHICH value is written (noted only: fileinfo and filetimes write disjoint FileInfo fields, which is not checked), implicit panics (nil dereference, index out of range), conditions in the drivers themselves (addBlob's duplicate check is K-live's finding), the load-side reader of 'deleted' rows (initDeletes) against its live counterpart updateDeletes (two functions: their agreement is not decided), hidden state of functions outside pkg/index/camtypes; locations are by type, so two objects of one type are not told apart (over-approximation: can only add reports).",
 		RuleDocs: map[string]string{
 			"K-tables":     "H6 table agreement over slurpPrefixes / corpusMergeFunc / written row kinds (+ separators), scan set, live-merge gate and dispatch",
 			"K-owner":      "H5 who-may-write: Index.deletes (+ its map), Index.needs/neededBy/readyReindex, Corpus fields, mutationMap.deletes; open path loads both caches",
 			"K-delete-row": "H2: noteDelete only where the 'deleted' row for the same claim was put into the same mutation map, and vice versa",
 			"K-live":       "H7/H3/H2: addBlob gets the committed mm, after commit success, under the write lock, and merges all of it; commit feeds caches only after CommitBatch; no slurped row kind bypasses commit",
+			"K-order-free": "backward slice (data + control dependence, interprocedural with call-string context) of every branch condition that decides whether a merge function writes corpus state, panics or fails: it may depend only on the row, on state no other row kind writes, or on state of a kind both paths merge first; c.br/c.str/c.strB are transparent by proof (interning tables M[k]=k, M[v.f]=v), brInterns and the scratch slice by dataflow facts",
 			"K-inval":      "H2 over the resolved call structure + abstract interpretation: every live write of a location the generation-stamped caches (lazySortedPermanodes, stamp ofGen vs Corpus.gen) are computed from passes a generation increment within addBlob; the caches are served only on the stamp==generation edge and stamped only with what they were built at; the generation only grows; other writers run only on a fresh corpus under scanFromStorage; PermanodeMeta.attr/signer are re-derived after every live write of Claims; #order: every field the load path sorts in place (discovered; comparator compared symbolically) is, after every live write, re-sorted by the same comparator, or known in order from a last-two comparison by the comparator's key after a one-element append, or known shorter than 2, on every path to the return of the live maintenance functions",
 		},
 		Run:       runC06,
 		DesignRef: "DESIGN.md §4 C06",
-		Technique: "static analysis: table agreement extracted from the package initializer's SSA, who-may-write enumeration over field stores and map updates, dominance on error-nil edges, lockset, value dependence; for K-inval: field read/write sets by type over a resolved call graph (table dispatch, function-valued fields and parameters, callbacks), interprocedural must-pass-through (dominance or post-dominance of a generation increment at each level of the call chain), and a forward dataflow over the cache readers (stamp-valid / may-hold-old-content bits per cache field); for the order clause: symbolic rendering of comparators (Less methods and less functions inlined over placeholders) to compare the load path's sorts with the live path's sorts and order checks, and a three-state path exploration (sorted / sorted plus one appended element / unknown) with branch facts, phi-resolved conditions and per-callee summaries",
-		LevelText: "Decides structural necessary conditions only: the live path and the restart path of the index deletion cache, the dependency maps and the corpus are driven by the same row kinds, the same rows and the same tables, and no other code writes those caches. Also decides that the lazily sorted permanode caches cannot outlive a change of anything they are computed from (one generation increment per update that writes an input, caches served only for the current generation) and that the per-permanode attribute caches are brought up to date after every live claim, and that every slice the load path sorts (claims of a permanode, deletions of a blob in the corpus and in the index cache) is left sorted by the same comparator by every live write, on every path. Does not decide that both paths compute equal state for every arrival history, nor anything about concrete sorted.KeyValue backends.",
+		Technique: "static analysis: table agreement extracted from the package initializer's SSA, who-may-write enumeration over field stores and map updates, dominance on error-nil edges, lockset, value dependence; for K-inval: field read/write sets by type over a resolved call graph (table dispatch, function-valued fields and parameters, callbacks), interprocedural must-pass-through (dominance or post-dominance of a generation increment at each level of the call chain), and a forward dataflow over the cache readers (stamp-valid / may-hold-old-content bits per cache field); for the order clause: symbolic rendering of comparators (Less methods and less functions inlined over placeholders) to compare the load path's sorts with the live path's sorts and order checks, and a three-state path exploration (sorted / sorted plus one appended element / unknown) with branch facts, phi-resolved conditions and per-callee summaries; for K-order-free: post-dominator based control dependence, an interprocedural backward slice (data and control dependence, bounded call-string contexts, closures, captured and spilled variables, must-reaching stores for scratch fields), per-kind call structures and write sets, table invariants (identity / keyed-by-field maps) proved from every update site, symbolic equality of all returns of a helper, success-dominance for the merged-first relation on the load and the live path",
+		LevelText: "Decides structural necessary conditions only: the live path and the restart path of the index deletion cache, the dependency maps and the corpus are driven by the same row kinds, the same rows and the same tables, and no other code writes those caches. Also decides that the lazily sorted permanode caches cannot outlive a change of anything they are computed from (one generation increment per update that writes an input, caches served only for the current generation) and that the per-permanode attribute caches are brought up to date after every live claim, and that every slice the load path sorts (claims of a permanode, deletions of a blob in the corpus and in the index cache) is left sorted by the same comparator by every live write, on every path. Also decides that no merge function lets state filled by rows of another kind decide whether its own row takes effect (the live arrival order and the restart's kind-by-kind order would then give different corpora from the same rows), except where both paths merge that other kind first. Does not decide that both paths compute equal state for every arrival history, nor anything about concrete sorted.KeyValue backends.",
 	})
 }
 
@@ -64,7 +67,8 @@ type c06Ctx struct {
 	mergeKeys   []string          // keys of corpusMergeFunc in order
 	mergeFn     map[string]string // key -> "" (nil) or thunk/function name
 	mergeImpl   map[*ssa.Function]bool
-	slurp       []c06Kind // slurpPrefixes in order
+	mergeRoot   map[string]*ssa.Function // key -> the function value stored in corpusMergeFunc
+	slurp       []c06Kind                // slurpPrefixes in order
 	slurpSet    map[string]string
 	initFn      *ssa.Function
 	gMerge      *ssa.Global
@@ -74,6 +78,27 @@ type c06Ctx struct {
 
 	ffCache   map[c06Loc][]*ssa.Function
 	seesCache map[*types.Package]bool
+
+	allCG    *c06CG // every module function that can name corpus state (lazily built, shared by K-inval and K-order-free)
+	allSites []c06WSite
+}
+
+// allScope: the call structure over every module function that can name corpus
+// state (test-support packages excluded) and the writes to in-scope state in it.
+func (cx *c06Ctx) allScope() (*c06CG, []c06WSite) {
+	if cx.allCG == nil {
+		var scopeFns []*ssa.Function
+		for _, fn := range cx.p.AllFuncs {
+			top := TopFunc(fn)
+			if top.Pkg == nil || IsTestSupportPkg(RelPkg(top.Pkg.Pkg)) || !cx.followed(fn) {
+				continue
+			}
+			scopeFns = append(scopeFns, fn)
+		}
+		cx.allCG = cx.buildCG(scopeFns, false)
+		cx.allSites = c06AllWriteSites(cx.allCG.order, cx.allCG)
+	}
+	return cx.allCG, cx.allSites
 }
 
 func c06Global(pkg *ssa.Package, name string) *ssa.Global {
@@ -231,6 +256,7 @@ func (cx *c06Ctx) kindOfKey(v ssa.Value) (c06Kind, bool) {
 func (cx *c06Ctx) loadTables() {
 	cx.mergeFn = map[string]string{}
 	cx.mergeImpl = map[*ssa.Function]bool{}
+	cx.mergeRoot = map[string]*ssa.Function{}
 	cx.slurpSet = map[string]string{}
 	var mergeMap *ssa.MakeMap
 	var slurpArr *ssa.Alloc
@@ -286,6 +312,7 @@ func (cx *c06Ctx) loadTables() {
 		if f, ok := mu.Value.(*ssa.Function); ok {
 			name = f.Name()
 			cx.mergeImpl[f] = true
+			cx.mergeRoot[k] = f
 			// method-expression thunk: the real method is its only static callee
 			for _, c := range CallsIn(f, false) {
 				if callee := c.Callee(); callee != nil {
@@ -429,6 +456,7 @@ func runC06(p *Program, r *Reporter) {
 	c06RuleDeleteRow(cx)
 	c06RuleLive(cx)
 	c06RuleInval(cx)
+	c06RuleOrderFree(cx)
 }
 
 // ---------------------------------------------------------------------------
@@ -3874,17 +3902,7 @@ func c06RuleInval(cx *c06Ctx) {
 	}
 	live := cx.buildCG([]*ssa.Function{addBlob}, false)
 	load := cx.buildCG([]*ssa.Function{scanFn}, false)
-	// every module function that can name corpus state (test-support packages excluded)
-	var scopeFns []*ssa.Function
-	for _, fn := range p.AllFuncs {
-		top := TopFunc(fn)
-		if top.Pkg == nil || IsTestSupportPkg(RelPkg(top.Pkg.Pkg)) || !cx.followed(fn) {
-			continue
-		}
-		scopeFns = append(scopeFns, fn)
-	}
-	all := cx.buildCG(scopeFns, false)
-	sites := c06AllWriteSites(all.order, all)
+	all, sites := cx.allScope()
 	n := 0
 
 	for _, sc := range stamped {
@@ -5460,4 +5478,1849 @@ func c06RuleOrder(cx *c06Ctx, load, live, all *c06CG, sites []c06WSite, loadName
 		}
 	}
 	return n
+}
+
+// ---------------------------------------------------------------------------
+// K-order-free — merging a set of rows gives the same corpus whatever the order
+// in which rows of different kinds are merged.
+//
+// The load path merges kind by kind in slurpPrefixes order (every `meta:` row
+// before any other row, ...); the live path merges in arrival order, and within
+// one mutation map in Go map order. Both end in the same state only if no merge
+// function lets state filled by rows of ANOTHER kind decide WHETHER it writes
+// (or panics, or which error it returns). This is decided by a backward slice
+// (data + control dependence, through calls, closures, captured variables and
+// spilled locals) of every branch condition on which a write of corpus state,
+// a panic, or a call leading to one is control dependent.
+//
+//   kinds        : the non-nil entries of corpusMergeFunc, each with its own
+//                  call structure (so a function parameter such as
+//                  mutateFileInfo's fn resolves to that kind's closure only);
+//                  *Corpus methods the drivers (addBlob, scanFromStorage,
+//                  scanPrefix) call directly join the kind whose merge function
+//                  they reach (addKeyID -> signerkeyid) or, when they write
+//                  corpus state themselves, the pseudo kind of rows merged
+//                  outside the table (updateDeletes/initDeletes: `deleted`).
+//   ownership    : location L (struct field / elements of a named map or slice
+//                  type) is foreign to kind K when a function of another kind's
+//                  call structure writes it.
+//   not events   : writes of fields nothing ever reads other than to write them
+//                  back (counters), and the self-maintenance of identity tables
+//                  (every update is M[k] = k: skipping the update when k is
+//                  present cannot change the table).
+//   determined   : a function all of whose returns are the same function of one
+//                  parameter (the parameter itself, a conversion of it, what an
+//                  identity table holds under it, or field f of what a table
+//                  with M[v.f] = v holds under it, each under the `present`
+//                  edge) contributes only that argument's dependences: this is
+//                  what makes c.br / c.str / c.strB transparent, by proof
+//                  rather than by name.
+//   ordered      : a foreign location whose writers all belong to kinds that are
+//                  merged before K on BOTH paths (load: an explicit scanPrefix
+//                  of the writer's prefix success-dominates the scan of K's
+//                  prefix; live: addBlob calls a direct merger of the writer's
+//                  kind on the same mutation map, success-dominating the row
+//                  dispatch) is accepted (keyId for claims).
+
+type c06OfKind struct {
+	name   string
+	pseudo bool
+	roots  []*ssa.Function
+	cg     *c06CG
+	sites  []c06WSite                        // writes that count as events
+	undc   []c06WSite                        // writes through references that cannot be followed
+	writes map[c06Loc][]*ssa.Function        // every location written under this kind -> by which functions
+	trans  map[*ssa.Function]map[c06Loc]bool // locations written by fn or by anything it calls
+	events map[*ssa.Function][]ssa.Instruction
+	hasEv  map[*ssa.Function]bool
+}
+
+type c06Of struct {
+	cx        *c06Ctx
+	kinds     []*c06OfKind
+	byName    map[string]*c06OfKind
+	unobs     map[c06Loc]bool   // fields only ever read to be written back
+	intern    map[c06Loc]string // Corpus map field -> projection: "" (M[k] = k) or field name f (M[v.f] = v)
+	selfMaint map[c06Loc]bool   // identity tables
+	cdCache   map[*ssa.Function]map[*ssa.BasicBlock][]*ssa.BasicBlock
+	detCache  map[*ssa.Function]int
+	usedDet   map[*ssa.Function]bool
+	ordCache  map[[2]*c06OfKind]string
+	drivers   map[*ssa.Function]bool
+}
+
+// ---- exempt locations
+
+// findUnobservable: fields of Corpus whose every load only feeds a store back into the same field.
+func (o *c06Of) findUnobservable() {
+	cx := o.cx
+	st, _ := cx.tCorpus.Underlying().(*types.Struct)
+	if st == nil {
+		return
+	}
+	observed := map[string]bool{}
+	seenField := map[string]bool{}
+	for _, fn := range cx.fns {
+		for _, b := range fn.Blocks {
+			for _, in := range b.Instrs {
+				switch x := in.(type) {
+				case *ssa.Field:
+					if NamedOf(x.X.Type()) == cx.tCorpus {
+						observed[fieldName(x.X.Type(), x.Field)] = true
+					}
+				case *ssa.FieldAddr:
+					if NamedOf(x.X.Type()) != cx.tCorpus || x.Referrers() == nil {
+						continue
+					}
+					f := fieldName(x.X.Type(), x.Field)
+					seenField[f] = true
+					for _, ref := range *x.Referrers() {
+						switch r := ref.(type) {
+						case *ssa.DebugRef:
+						case *ssa.Store:
+							if r.Addr != ssa.Value(x) {
+								observed[f] = true
+							}
+						case *ssa.UnOp:
+							if r.Op != token.MUL || !c06OfOnlyWrittenBack(r, f, cx.tCorpus, 0) {
+								observed[f] = true
+							}
+						default:
+							observed[f] = true
+						}
+					}
+				}
+			}
+		}
+	}
+	for i := 0; i < st.NumFields(); i++ {
+		f := st.Field(i).Name()
+		if b, ok := st.Field(i).Type().Underlying().(*types.Basic); ok && b.Info()&types.IsNumeric != 0 && seenField[f] && !observed[f] {
+			o.unobs[c06Loc{cx.tCorpus, f}] = true
+		}
+	}
+}
+
+// c06OfOnlyWrittenBack: every use of v ends (through arithmetic) in a store to field f of T.
+func c06OfOnlyWrittenBack(v ssa.Value, f string, T *types.Named, depth int) bool {
+	if depth > 4 || v.Referrers() == nil {
+		return false
+	}
+	for _, ref := range *v.Referrers() {
+		switch r := ref.(type) {
+		case *ssa.DebugRef:
+		case *ssa.BinOp:
+			switch r.Op {
+			case token.ADD, token.SUB, token.MUL:
+			default:
+				return false
+			}
+			if !c06OfOnlyWrittenBack(r, f, T, depth+1) {
+				return false
+			}
+		case *ssa.Store:
+			if r.Val != v {
+				return false
+			}
+			n, g, _, ok := c06FieldOf(r.Addr)
+			if !ok || n != T || g != f {
+				return false
+			}
+		default:
+			return false
+		}
+	}
+	return true
+}
+
+func c06OfStripConv(v ssa.Value) ssa.Value {
+	for i := 0; i < 8; i++ {
+		v = originValue(v)
+		if cv, ok := v.(*ssa.Convert); ok {
+			v = cv.X
+			continue
+		}
+		break
+	}
+	return v
+}
+
+// c06OfUpdateProjection classifies a map update M[k] = v: "" when k and v are the
+// same value (identity table), "f" when v is a pointer to a struct made here and k
+// is its field f (never reassigned here).
+func c06OfUpdateProjection(mu *ssa.MapUpdate) (string, bool) {
+	if types.Identical(mu.Key.Type(), mu.Value.Type()) && c06OfStripConv(mu.Key) == c06OfStripConv(mu.Value) {
+		return "", true
+	}
+	al, ok := originValue(mu.Value).(*ssa.Alloc)
+	if !ok || al.Parent() != mu.Parent() {
+		return "", false
+	}
+	if f, ok := c06OfBuiltWithKey(al, mu.Key); ok {
+		return f, true
+	}
+	ld, ok := originValue(mu.Key).(*ssa.UnOp)
+	if !ok || ld.Op != token.MUL {
+		return "", false
+	}
+	fa, ok := ld.X.(*ssa.FieldAddr)
+	if !ok || originValue(fa.X) != ssa.Value(al) {
+		return "", false
+	}
+	f := fieldName(fa.X.Type(), fa.Field)
+	if al.Referrers() == nil {
+		return "", false
+	}
+	for _, ref := range *al.Referrers() {
+		switch r := ref.(type) {
+		case *ssa.Store:
+			if r.Addr == ssa.Value(al) && !Precedes(r, ld) {
+				return "", false
+			}
+		case *ssa.FieldAddr:
+			if r.Field != fa.Field || r.Referrers() == nil {
+				continue
+			}
+			for _, r2 := range *r.Referrers() {
+				switch y := r2.(type) {
+				case *ssa.UnOp, *ssa.DebugRef:
+				case *ssa.Store:
+					if y.Addr == ssa.Value(r) {
+						return "", false
+					}
+				default:
+					return "", false // address of the key field handed out
+				}
+			}
+		}
+	}
+	return f, true
+}
+
+// c06OfBuiltWithKey: the object al is built field by field (never assigned as a
+// whole) and exactly one of its fields is stored, once, the very value used as key.
+func c06OfBuiltWithKey(al *ssa.Alloc, key ssa.Value) (string, bool) {
+	if al.Referrers() == nil {
+		return "", false
+	}
+	stores := map[int][]*ssa.Store{}
+	for _, ref := range *al.Referrers() {
+		switch r := ref.(type) {
+		case *ssa.Store:
+			if r.Addr == ssa.Value(al) {
+				return "", false
+			}
+		case *ssa.FieldAddr:
+			if r.Referrers() == nil {
+				continue
+			}
+			for _, r2 := range *r.Referrers() {
+				switch y := r2.(type) {
+				case *ssa.UnOp, *ssa.DebugRef:
+				case *ssa.Store:
+					if y.Addr == ssa.Value(r) {
+						stores[r.Field] = append(stores[r.Field], y)
+					}
+				default:
+					stores[r.Field] = append(stores[r.Field], nil) // address handed out
+				}
+			}
+		}
+	}
+	found, name := 0, ""
+	for fld, sts := range stores {
+		if len(sts) != 1 || sts[0] == nil {
+			continue
+		}
+		if c06OfSameRead(sts[0].Val, key) {
+			found++
+			name = fieldName(al.Type(), fld)
+		}
+	}
+	return name, found == 1
+}
+
+// c06OfSameRead: a and b are the same value, or two reads of the same field of a
+// local object whose field is never assigned separately.
+func c06OfSameRead(a, b ssa.Value) bool {
+	oa, ob := originValue(a), originValue(b)
+	if oa == ob {
+		return true
+	}
+	la, ok1 := oa.(*ssa.UnOp)
+	lb, ok2 := ob.(*ssa.UnOp)
+	if !ok1 || !ok2 || la.Op != token.MUL || lb.Op != token.MUL {
+		return false
+	}
+	fa, ok1 := la.X.(*ssa.FieldAddr)
+	fb, ok2 := lb.X.(*ssa.FieldAddr)
+	if !ok1 || !ok2 || fa.Field != fb.Field {
+		return false
+	}
+	al, ok := originValue(fa.X).(*ssa.Alloc)
+	if !ok || originValue(fb.X) != ssa.Value(al) || al.Referrers() == nil {
+		return false
+	}
+	for _, ref := range *al.Referrers() {
+		r, ok := ref.(*ssa.FieldAddr)
+		if !ok || r.Field != fa.Field || r.Referrers() == nil {
+			continue
+		}
+		for _, r2 := range *r.Referrers() {
+			switch r2.(type) {
+			case *ssa.UnOp, *ssa.DebugRef:
+			default:
+				return false
+			}
+		}
+	}
+	// whole-object stores must come before both reads
+	for _, ref := range *al.Referrers() {
+		if st, ok := ref.(*ssa.Store); ok && st.Addr == ssa.Value(al) {
+			if !Precedes(st, la) || !Precedes(st, lb) {
+				return false
+			}
+		}
+	}
+	return true
+}
+
+// mapNotAliased: the map held in Corpus.field is only ever looked up, updated,
+// ranged, measured or compared through a direct load of the field.
+func (o *c06Of) mapNotAliased(field string) bool {
+	cx := o.cx
+	for _, fn := range cx.fns {
+		for _, b := range fn.Blocks {
+			for _, in := range b.Instrs {
+				fa, ok := in.(*ssa.FieldAddr)
+				if !ok || NamedOf(fa.X.Type()) != cx.tCorpus || fieldName(fa.X.Type(), fa.Field) != field || fa.Referrers() == nil {
+					continue
+				}
+				for _, ref := range *fa.Referrers() {
+					switch r := ref.(type) {
+					case *ssa.DebugRef:
+					case *ssa.Store:
+						if r.Addr != ssa.Value(fa) {
+							return false
+						}
+					case *ssa.UnOp:
+						if r.Op != token.MUL || r.Referrers() == nil {
+							return false
+						}
+						for _, r2 := range *r.Referrers() {
+							switch y := r2.(type) {
+							case *ssa.DebugRef, *ssa.Lookup, *ssa.Range, *ssa.BinOp:
+							case *ssa.MapUpdate:
+								if y.Map != ssa.Value(r) {
+									return false
+								}
+							case *ssa.Call:
+								bi, isB := y.Call.Value.(*ssa.Builtin)
+								if !isB || (bi.Name() != "len" && bi.Name() != "delete" && bi.Name() != "clear") {
+									return false
+								}
+							default:
+								return false
+							}
+						}
+					default:
+						return false
+					}
+				}
+			}
+		}
+	}
+	return true
+}
+
+// findInternTables: Corpus map fields every update of which is M[k] = k (identity)
+// or M[v.f] = v (keyed by a field of the stored object that is never reassigned).
+func (o *c06Of) findInternTables() {
+	cx := o.cx
+	ws := c06Writes(cx.fns, map[*types.Named]bool{cx.tCorpus: true})
+	type acc struct {
+		proj string
+		n    int
+		bad  bool
+	}
+	by := map[string]*acc{}
+	for _, w := range ws {
+		a := by[w.field]
+		if a == nil {
+			a = &acc{}
+			by[w.field] = a
+		}
+		switch w.kind {
+		case "assign":
+			st := w.in.(*ssa.Store)
+			switch v := originValue(st.Val).(type) {
+			case *ssa.MakeMap:
+			case *ssa.Const:
+				if v.Value != nil {
+					a.bad = true
+				}
+			default:
+				a.bad = true
+			}
+		case "map-update":
+			pr, ok := c06OfUpdateProjection(w.in.(*ssa.MapUpdate))
+			if !ok || (a.n > 0 && a.proj != pr) {
+				a.bad = true
+			}
+			a.proj = pr
+			a.n++
+		case "map-delete", "clear":
+		default:
+			a.bad = true
+		}
+	}
+	st, _ := cx.tCorpus.Underlying().(*types.Struct)
+	for f, a := range by {
+		if a.bad || a.n == 0 || !o.mapNotAliased(f) {
+			continue
+		}
+		var mt *types.Map
+		for i := 0; st != nil && i < st.NumFields(); i++ {
+			if st.Field(i).Name() == f {
+				mt, _ = st.Field(i).Type().Underlying().(*types.Map)
+			}
+		}
+		if mt == nil {
+			continue
+		}
+		loc := c06Loc{cx.tCorpus, f}
+		if a.proj == "" {
+			o.intern[loc] = ""
+			o.selfMaint[loc] = true
+			continue
+		}
+		// keyed by a field of the stored object: that field is never written on an existing object
+		pt, ok := mt.Elem().Underlying().(*types.Pointer)
+		if !ok {
+			continue
+		}
+		T := NamedOf(pt.Elem())
+		if T == nil {
+			continue
+		}
+		_, sites := cx.allScope()
+		ok = true
+		for _, s := range sites {
+			if s.loc.typ == T && (s.loc.field == a.proj || s.loc.field == "*") {
+				ok = false
+			}
+		}
+		if ok {
+			o.intern[loc] = a.proj
+		}
+	}
+}
+
+// ---- control dependence
+
+// cd: for each block, the branching blocks it is directly control dependent on
+// (post-dominators over the CFG with one virtual exit; return and panic both exit).
+func (o *c06Of) cd(fn *ssa.Function) map[*ssa.BasicBlock][]*ssa.BasicBlock {
+	if m, ok := o.cdCache[fn]; ok {
+		return m
+	}
+	n := len(fn.Blocks)
+	words := (n + 1 + 63) / 64
+	newSet := func(fill bool) []uint64 {
+		s := make([]uint64, words)
+		if fill {
+			for i := range s {
+				s[i] = ^uint64(0)
+			}
+		}
+		return s
+	}
+	has := func(s []uint64, i int) bool { return s[i/64]&(1<<uint(i%64)) != 0 }
+	pdom := make([][]uint64, n+1)
+	for i := 0; i < n; i++ {
+		pdom[i] = newSet(true)
+	}
+	pdom[n] = newSet(false)
+	pdom[n][n/64] |= 1 << uint(n%64)
+	for changed := true; changed; {
+		changed = false
+		for i := n - 1; i >= 0; i-- {
+			b := fn.Blocks[i]
+			nw := newSet(true)
+			if len(b.Succs) == 0 {
+				copy(nw, pdom[n])
+			} else {
+				for _, s := range b.Succs {
+					for w := range nw {
+						nw[w] &= pdom[s.Index][w]
+					}
+				}
+			}
+			nw[i/64] |= 1 << uint(i%64)
+			for w := range nw {
+				if nw[w] != pdom[i][w] {
+					changed = true
+				}
+			}
+			pdom[i] = nw
+		}
+	}
+	out := map[*ssa.BasicBlock][]*ssa.BasicBlock{}
+	for _, x := range fn.Blocks {
+		if len(x.Succs) != 2 || x.Succs[0] == x.Succs[1] {
+			continue
+		}
+		if _, isIf := x.Instrs[len(x.Instrs)-1].(*ssa.If); !isIf {
+			continue
+		}
+		for _, s := range x.Succs {
+			for _, b := range fn.Blocks {
+				if !has(pdom[s.Index], b.Index) {
+					continue
+				}
+				if b != x && has(pdom[x.Index], b.Index) {
+					continue
+				}
+				dup := false
+				for _, y := range out[b] {
+					if y == x {
+						dup = true
+					}
+				}
+				if !dup {
+					out[b] = append(out[b], x)
+				}
+			}
+		}
+	}
+	o.cdCache[fn] = out
+	return out
+}
+
+// controllers: the branching blocks b is (transitively) control dependent on.
+func (o *c06Of) controllers(b *ssa.BasicBlock, into map[*ssa.BasicBlock]bool) {
+	for _, x := range o.cd(b.Parent())[b] {
+		if !into[x] {
+			into[x] = true
+			o.controllers(x, into)
+		}
+	}
+}
+
+func c06OfCond(x *ssa.BasicBlock) ssa.Value {
+	return x.Instrs[len(x.Instrs)-1].(*ssa.If).Cond
+}
+
+// ---- determined functions
+
+// okFact: the lookup lk is known to have found its key on every path to block b.
+func c06OfOkFact(b *ssa.BasicBlock, lk *ssa.Lookup) bool {
+	for _, f := range FactsAt(b) {
+		cond, val := f.Cond, f.Val
+		for {
+			if u, ok := cond.(*ssa.UnOp); ok && u.Op == token.NOT {
+				cond, val = u.X, !val
+				continue
+			}
+			break
+		}
+		if ex, ok := originValue(cond).(*ssa.Extract); ok && ex.Index == 1 && ex.Tuple == ssa.Value(lk) && val {
+			return true
+		}
+	}
+	return false
+}
+
+func (o *c06Of) internOf(m ssa.Value) (string, bool) {
+	n, f, _, ok := c06LoadedField(m)
+	if !ok {
+		return "", false
+	}
+	pr, ok := o.intern[c06Loc{n, f}]
+	return pr, ok
+}
+
+// symOf renders v, as seen at block b, as a function of one parameter of fn; "" when it is not.
+func (o *c06Of) symOf(v ssa.Value, b *ssa.BasicBlock, depth int) string {
+	if depth > 8 {
+		return ""
+	}
+	v = originValue(v)
+	switch x := v.(type) {
+	case *ssa.Parameter:
+		for i, p := range x.Parent().Params {
+			if p == x {
+				return fmt.Sprintf("P%d", i)
+			}
+		}
+	case *ssa.Convert:
+		if s := o.symOf(x.X, b, depth+1); s != "" {
+			return "conv<" + x.Type().String() + ">(" + s + ")"
+		}
+	case *ssa.Const:
+		// a constant returned where the parameter is known to equal it
+		for _, f := range FactsAt(b) {
+			cond, val := f.Cond, f.Val
+			for {
+				if u, ok := cond.(*ssa.UnOp); ok && u.Op == token.NOT {
+					cond, val = u.X, !val
+					continue
+				}
+				break
+			}
+			bo, ok := cond.(*ssa.BinOp)
+			if !ok || !(bo.Op == token.EQL && val || bo.Op == token.NEQ && !val) {
+				continue
+			}
+			for _, pr := range [][2]ssa.Value{{bo.X, bo.Y}, {bo.Y, bo.X}} {
+				c, ok := pr[1].(*ssa.Const)
+				if !ok || c.Value == nil {
+					continue
+				}
+				if x.Value != nil && types.Identical(c.Type(), x.Type()) && constant.Compare(c.Value, token.EQL, x.Value) {
+					if s := o.symOf(pr[0], b, depth+1); s != "" {
+						return s
+					}
+				}
+				// len(p) == 0 and the empty string: string(p) is ""
+				if call, ok := pr[0].(*ssa.Call); ok && x.Value != nil && x.Value.Kind() == constant.String && constant.StringVal(x.Value) == "" {
+					if bi, isB := call.Call.Value.(*ssa.Builtin); isB && bi.Name() == "len" && c.Value.Kind() == constant.Int && constant.Sign(c.Value) == 0 {
+						if s := o.symOf(call.Call.Args[0], b, depth+1); s != "" {
+							if types.Identical(call.Call.Args[0].Type().Underlying(), x.Type().Underlying()) {
+								return s
+							}
+							return "conv<" + x.Type().String() + ">(" + s + ")"
+						}
+					}
+				}
+			}
+		}
+	case *ssa.Extract:
+		if lk, ok := x.Tuple.(*ssa.Lookup); ok && lk.CommaOk && x.Index == 0 {
+			if pr, ok := o.internOf(lk.X); ok && pr == "" && c06OfOkFact(b, lk) {
+				return o.symOf(lk.Index, b, depth+1)
+			}
+		}
+	case *ssa.UnOp:
+		if x.Op != token.MUL {
+			return ""
+		}
+		fa, ok := x.X.(*ssa.FieldAddr)
+		if !ok {
+			return ""
+		}
+		ex, ok := originValue(fa.X).(*ssa.Extract)
+		if !ok || ex.Index != 0 {
+			return ""
+		}
+		lk, ok := ex.Tuple.(*ssa.Lookup)
+		if !ok || !lk.CommaOk {
+			return ""
+		}
+		if pr, ok := o.internOf(lk.X); ok && pr != "" && pr == fieldName(fa.X.Type(), fa.Field) && c06OfOkFact(b, lk) {
+			return o.symOf(lk.Index, b, depth+1)
+		}
+	}
+	return ""
+}
+
+// determined: fn has one result and every return yields the same function of one
+// parameter; returns that parameter's index, or -1.
+func (o *c06Of) determined(fn *ssa.Function) int {
+	if v, ok := o.detCache[fn]; ok {
+		return v
+	}
+	res := -1
+	o.detCache[fn] = res
+	if fn.Signature.Results().Len() != 1 || len(fn.Blocks) == 0 {
+		return res
+	}
+	rets := Returns(fn)
+	sym := ""
+	for _, ri := range rets {
+		if len(ri.Results) != 1 {
+			return res
+		}
+		s := o.symOf(ri.Results[0], ri.Ret.Block(), 0)
+		if s == "" || (sym != "" && s != sym) {
+			return res
+		}
+		sym = s
+	}
+	if sym == "" {
+		return res
+	}
+	i := strings.LastIndex(sym, "P")
+	idx := 0
+	fmt.Sscanf(sym[i+1:], "%d", &idx)
+	res = idx
+	o.detCache[fn] = res
+	return res
+}
+
+// ---- the slice
+
+type c06OfFrame struct {
+	call   ssa.CallInstruction
+	callee *ssa.Function
+	parent *c06OfFrame
+	depth  int
+}
+
+type c06OfFrameKey struct {
+	call   ssa.CallInstruction
+	callee *ssa.Function
+	parent *c06OfFrame
+}
+
+type c06OfVK struct {
+	v ssa.Value
+	f *c06OfFrame
+}
+
+type c06OfBK struct {
+	b *ssa.BasicBlock
+	f *c06OfFrame
+}
+
+type c06OfResKey struct {
+	call *ssa.Call
+	idx  int
+	f    *c06OfFrame
+}
+
+// c06OfWalk is one backward slice. Calls are entered with a frame (call-string
+// context, bounded) so that a helper's parameters are bound to the arguments of
+// the call under analysis, not to those of every call of the helper.
+type c06OfWalk struct {
+	o      *c06Of
+	k      *c06OfKind
+	frames map[c06OfFrameKey]*c06OfFrame
+	seenV  map[c06OfVK]bool
+	seenB  map[c06OfBK]bool
+	seenR  map[c06OfResKey]bool
+	seenC  map[c06OfVK]bool
+	tags   map[c06Loc]token.Pos
+	unk    []string
+}
+
+func (o *c06Of) newWalk(k *c06OfKind) *c06OfWalk {
+	return &c06OfWalk{o: o, k: k, frames: map[c06OfFrameKey]*c06OfFrame{}, seenV: map[c06OfVK]bool{}, seenB: map[c06OfBK]bool{}, seenR: map[c06OfResKey]bool{}, seenC: map[c06OfVK]bool{}, tags: map[c06Loc]token.Pos{}}
+}
+
+func (w *c06OfWalk) frame(call ssa.CallInstruction, callee *ssa.Function, parent *c06OfFrame) *c06OfFrame {
+	d := 1
+	if parent != nil {
+		d = parent.depth + 1
+	}
+	if d > 8 {
+		return nil // deeper: parameters are bound to every call site (still sound)
+	}
+	key := c06OfFrameKey{call, callee, parent}
+	if f, ok := w.frames[key]; ok {
+		return f
+	}
+	f := &c06OfFrame{call, callee, parent, d}
+	w.frames[key] = f
+	return f
+}
+
+func c06OfValueFn(v ssa.Value) *ssa.Function {
+	switch x := v.(type) {
+	case *ssa.Parameter:
+		return x.Parent()
+	case *ssa.FreeVar:
+		return x.Parent()
+	}
+	if in, ok := v.(ssa.Instruction); ok {
+		return in.Parent()
+	}
+	return nil
+}
+
+func (w *c06OfWalk) tag(l c06Loc, pos token.Pos) {
+	if old, ok := w.tags[l]; !ok || (old == token.NoPos && pos != token.NoPos) {
+		w.tags[l] = pos
+	}
+}
+
+func (w *c06OfWalk) unknown(s string) {
+	for _, x := range w.unk {
+		if x == s {
+			return
+		}
+	}
+	w.unk = append(w.unk, s)
+}
+
+// ctrl: the conditions that decide whether block b runs.
+func (w *c06OfWalk) ctrl(b *ssa.BasicBlock, cx *c06OfFrame) {
+	if cx != nil && cx.callee != b.Parent() {
+		cx = nil
+	}
+	if w.seenB[c06OfBK{b, cx}] {
+		return
+	}
+	w.seenB[c06OfBK{b, cx}] = true
+	for _, x := range w.o.cd(b.Parent())[b] {
+		w.val(c06OfCond(x), cx)
+		w.ctrl(x, cx)
+	}
+}
+
+func (w *c06OfWalk) param(p *ssa.Parameter, cx *c06OfFrame) {
+	fn := p.Parent()
+	idx := -1
+	for i, q := range fn.Params {
+		if q == p {
+			idx = i
+		}
+	}
+	if cx != nil {
+		args := (CallSite{cx.call.Parent(), cx.call}).Args()
+		if w.k.cg.callback[cx.call] {
+			for _, a := range args {
+				w.val(a, cx.parent)
+			}
+		} else if idx >= 0 && idx < len(args) {
+			w.val(args[idx], cx.parent)
+		} else {
+			w.unknown("argument for parameter " + p.Name() + " of " + c06FnName(fn))
+		}
+		return
+	}
+	for _, c := range w.k.cg.in[fn] {
+		args := c.Args()
+		if w.k.cg.callback[c.Instr] {
+			for _, a := range args {
+				w.val(a, nil)
+			}
+			continue
+		}
+		if idx >= 0 && idx < len(args) {
+			w.val(args[idx], nil)
+		} else {
+			w.unknown("argument for parameter " + p.Name() + " of " + c06FnName(fn))
+		}
+	}
+}
+
+// mustDefs: the load ld of field loc (address fa) can only see values stored into
+// that field of the same object earlier in the same function: every path back
+// from the load meets such a store before the function entry, and nothing in
+// between (a call that writes the field, a store through another base) can have
+// changed it. nil when that cannot be established.
+func (w *c06OfWalk) mustDefs(ld *ssa.UnOp, fa *ssa.FieldAddr, loc c06Loc) []*ssa.Store {
+	ok := true
+	var out []*ssa.Store
+	seen := map[*ssa.BasicBlock]bool{}
+	var back func(b *ssa.BasicBlock, from int)
+	back = func(b *ssa.BasicBlock, from int) {
+		for i := from - 1; i >= 0 && ok; i-- {
+			switch in := b.Instrs[i].(type) {
+			case *ssa.Store:
+				a2, isFA := in.Addr.(*ssa.FieldAddr)
+				if !isFA || a2.Field != fa.Field || NamedOf(a2.X.Type()) != loc.typ {
+					continue
+				}
+				if !sameOrigin(a2.X, fa.X) {
+					ok = false // the same field of what may be the same object
+					return
+				}
+				out = append(out, in)
+				return
+			case ssa.CallInstruction:
+				for _, a := range in.Common().Args {
+					if n, f, _, isF := c06FieldOf(a); isF && n == loc.typ && f == loc.field {
+						ok = false
+						return
+					}
+				}
+				for _, callee := range w.k.cg.out[in] {
+					if w.k.trans[callee][loc] {
+						ok = false
+						return
+					}
+				}
+			}
+		}
+		if !ok {
+			return
+		}
+		if len(b.Preds) == 0 {
+			ok = false // the value the field had on entry
+			return
+		}
+		for _, p := range b.Preds {
+			if !seen[p] {
+				seen[p] = true
+				back(p, len(p.Instrs))
+			}
+		}
+	}
+	back(ld.Block(), instrIndex(ld))
+	if !ok || len(out) == 0 {
+		return nil
+	}
+	return out
+}
+
+func (w *c06OfWalk) load(x *ssa.UnOp, cx *c06OfFrame) {
+	switch a := x.X.(type) {
+	case *ssa.FieldAddr:
+		if n := NamedOf(a.X.Type()); n != nil && c06InScope(n) {
+			loc := c06Loc{n, fieldName(a.X.Type(), a.Field)}
+			if sts := w.mustDefs(x, a, loc); sts != nil {
+				for _, st := range sts {
+					w.val(st.Val, cx)
+					if len(sts) > 1 {
+						w.ctrl(st.Block(), cx) // which of the stores ran
+					}
+				}
+				return
+			}
+			w.tag(loc, x.Pos())
+		}
+		w.val(a.X, cx)
+	case *ssa.IndexAddr:
+		if n := c06NamedRef(a.X.Type()); n != nil {
+			w.tag(c06Loc{n, "[]"}, x.Pos())
+		}
+		w.val(a.X, cx)
+		w.val(a.Index, cx)
+	case *ssa.Global:
+	case *ssa.Alloc, *ssa.FreeVar:
+		if r := resolveLoad(x); r != nil {
+			w.val(r, cx)
+			return
+		}
+		w.val(a, cx)
+	default:
+		if pt, ok := x.X.Type().Underlying().(*types.Pointer); ok {
+			if n := NamedOf(pt.Elem()); n != nil && c06InScope(n) {
+				if _, isStruct := n.Underlying().(*types.Struct); isStruct {
+					w.tag(c06Loc{n, "*"}, x.Pos())
+				}
+			}
+		}
+		w.val(x.X, cx)
+	}
+}
+
+// contents: what may have been stored into the object root points to (a local
+// variable, array, struct, map or slice made here), wherever the pointer went.
+func (w *c06OfWalk) contents(root ssa.Value, cx *c06OfFrame) {
+	if w.seenC[c06OfVK{root, cx}] {
+		return
+	}
+	w.seenC[c06OfVK{root, cx}] = true
+	seen := map[ssa.Value]bool{}
+	var fwd func(cur ssa.Value, depth int)
+	fwd = func(cur ssa.Value, depth int) {
+		if seen[cur] {
+			return
+		}
+		seen[cur] = true
+		if depth > 12 {
+			w.unknown("pointer into a local object handed on too many times")
+			return
+		}
+		refs := cur.Referrers()
+		if refs == nil {
+			return
+		}
+		for _, ref := range *refs {
+			switch r := ref.(type) {
+			case *ssa.Store:
+				if r.Addr == cur {
+					w.val(r.Val, cx)
+				}
+			case *ssa.MapUpdate:
+				if r.Map == cur {
+					w.val(r.Key, cx)
+					w.val(r.Value, cx)
+				}
+			case *ssa.FieldAddr:
+				if r.X == cur {
+					fwd(r, depth+1)
+				}
+			case *ssa.IndexAddr:
+				if r.X == cur {
+					fwd(r, depth+1)
+				}
+			case *ssa.Slice:
+				if r.X == cur {
+					fwd(r, depth+1)
+				}
+			case *ssa.Phi:
+				fwd(r, depth+1)
+			case *ssa.ChangeType:
+				fwd(r, depth+1)
+			case *ssa.Convert:
+				fwd(r, depth+1)
+			case *ssa.MakeInterface:
+				fwd(r, depth+1)
+			case *ssa.MakeClosure:
+				f := r.Fn.(*ssa.Function)
+				for i, bnd := range r.Bindings {
+					if bnd == cur && i < len(f.FreeVars) {
+						fwd(f.FreeVars[i], depth+1)
+					}
+				}
+			case ssa.CallInstruction:
+				cc := r.Common()
+				if bi, ok := cc.Value.(*ssa.Builtin); ok {
+					switch bi.Name() {
+					case "append":
+						if len(cc.Args) > 0 && cc.Args[0] == cur {
+							for _, a := range cc.Args[1:] {
+								w.val(a, cx)
+							}
+							if v, ok := r.(*ssa.Call); ok {
+								fwd(v, depth+1)
+							}
+						}
+					case "copy":
+						if len(cc.Args) == 2 && cc.Args[0] == cur {
+							w.val(cc.Args[1], cx)
+						}
+					}
+					continue
+				}
+				c := CallSite{r.Parent(), r}
+				args := c.Args()
+				callees := w.k.cg.out[r]
+				if len(callees) == 0 || w.k.cg.callback[r] {
+					// code that is not followed may store anything it was given
+					for _, a := range args {
+						if a != cur {
+							w.val(a, cx)
+						}
+					}
+					continue
+				}
+				for _, callee := range callees {
+					for i, a := range args {
+						if a == cur && i < len(callee.Params) {
+							fwd(callee.Params[i], depth+1)
+						}
+					}
+				}
+			}
+		}
+	}
+	fwd(root, 0)
+}
+
+func (w *c06OfWalk) res(call *ssa.Call, idx int, cx *c06OfFrame) {
+	key := c06OfResKey{call, idx, cx}
+	if w.seenR[key] {
+		return
+	}
+	w.seenR[key] = true
+	c := CallSite{call.Parent(), call}
+	args := c.Args()
+	if _, ok := call.Call.Value.(*ssa.Builtin); ok {
+		for _, a := range args {
+			w.val(a, cx)
+		}
+		return
+	}
+	callees := w.k.cg.out[call]
+	if len(callees) == 0 || w.k.cg.callback[call] {
+		if why, bad := w.k.cg.unresolved[call]; bad {
+			w.unknown("a call that cannot be resolved (" + why + ")")
+		}
+		// a function that is not followed: its result is a function of what it is given
+		if !call.Call.IsInvoke() && c.Callee() == nil {
+			w.val(call.Call.Value, cx)
+		}
+		for _, a := range args {
+			w.val(a, cx)
+		}
+		return
+	}
+	for _, callee := range callees {
+		if pi := w.o.determined(callee); pi >= 0 && idx == 0 {
+			w.o.usedDet[callee] = true
+			if pi < len(args) {
+				w.val(args[pi], cx)
+			}
+			continue
+		}
+		rets := Returns(callee)
+		if c06OfSameConst(rets, idx) {
+			continue // every return yields the same constant
+		}
+		nf := w.frame(call, callee, cx)
+		for _, ri := range rets {
+			if idx < len(ri.Results) {
+				w.val(ri.Results[idx], nf)
+			}
+			w.ctrl(ri.Ret.Block(), nf)
+		}
+	}
+}
+
+// c06OfSameConst: result idx is the same constant at every return.
+func c06OfSameConst(rets []ReturnInfo, idx int) bool {
+	var c0 *ssa.Const
+	for _, ri := range rets {
+		if idx >= len(ri.Results) {
+			return false
+		}
+		c, ok := ri.Results[idx].(*ssa.Const)
+		if !ok {
+			return false
+		}
+		if c0 == nil {
+			c0 = c
+			continue
+		}
+		if !types.Identical(c0.Type(), c.Type()) {
+			return false
+		}
+		if (c0.Value == nil) != (c.Value == nil) {
+			return false
+		}
+		if c0.Value != nil && !constant.Compare(c0.Value, token.EQL, c.Value) {
+			return false
+		}
+	}
+	return c0 != nil
+}
+
+// val: everything the value v depends on.
+func (w *c06OfWalk) val(v ssa.Value, cx *c06OfFrame) {
+	if v == nil {
+		return
+	}
+	if cx != nil && cx.callee != c06OfValueFn(v) {
+		cx = nil
+	}
+	if w.seenV[c06OfVK{v, cx}] {
+		return
+	}
+	w.seenV[c06OfVK{v, cx}] = true
+	switch x := v.(type) {
+	case *ssa.Const, *ssa.Function, *ssa.Builtin, *ssa.Global:
+	case *ssa.Parameter:
+		w.param(x, cx)
+	case *ssa.FreeVar:
+		if b := bindingOf(x); b != nil {
+			w.val(b, nil)
+		} else {
+			w.unknown("captured variable " + x.Name())
+		}
+	case *ssa.Alloc:
+		w.contents(x, cx)
+	case *ssa.MakeMap:
+		w.val(x.Reserve, cx)
+		w.contents(x, cx)
+	case *ssa.MakeSlice:
+		w.val(x.Len, cx)
+		w.val(x.Cap, cx)
+		w.contents(x, cx)
+	case *ssa.MakeChan:
+	case *ssa.MakeClosure:
+		for _, b := range x.Bindings {
+			w.val(b, cx)
+		}
+	case *ssa.UnOp:
+		if x.Op == token.MUL {
+			w.load(x, cx)
+		} else if x.Op == token.ARROW {
+			w.unknown("channel receive")
+		} else {
+			w.val(x.X, cx)
+		}
+	case *ssa.Field:
+		if n := NamedOf(x.X.Type()); n != nil && c06InScope(n) {
+			w.tag(c06Loc{n, fieldName(x.X.Type(), x.Field)}, x.Pos())
+		}
+		w.val(x.X, cx)
+	case *ssa.FieldAddr:
+		if n := NamedOf(x.X.Type()); n != nil && c06InScope(n) {
+			w.tag(c06Loc{n, fieldName(x.X.Type(), x.Field)}, x.Pos())
+		}
+		w.val(x.X, cx)
+	case *ssa.IndexAddr:
+		w.val(x.X, cx)
+		w.val(x.Index, cx)
+	case *ssa.Lookup:
+		if n := c06NamedRef(x.X.Type()); n != nil {
+			w.tag(c06Loc{n, "[]"}, x.Pos())
+		}
+		w.val(x.X, cx)
+		w.val(x.Index, cx)
+	case *ssa.Index:
+		if n := c06NamedRef(x.X.Type()); n != nil {
+			w.tag(c06Loc{n, "[]"}, x.Pos())
+		}
+		w.val(x.X, cx)
+		w.val(x.Index, cx)
+	case *ssa.Slice:
+		if x.High != nil {
+			if h, ok := ConstInt(x.High); ok && h == 0 {
+				return // a zero-length reslice exposes no element
+			}
+		}
+		w.val(x.X, cx)
+		w.val(x.Low, cx)
+		w.val(x.High, cx)
+		w.val(x.Max, cx)
+	case *ssa.BinOp:
+		w.val(x.X, cx)
+		w.val(x.Y, cx)
+	case *ssa.Convert:
+		w.val(x.X, cx)
+	case *ssa.MultiConvert:
+		w.val(x.X, cx)
+	case *ssa.ChangeType:
+		w.val(x.X, cx)
+	case *ssa.MakeInterface:
+		w.val(x.X, cx)
+	case *ssa.ChangeInterface:
+		w.val(x.X, cx)
+	case *ssa.SliceToArrayPointer:
+		w.val(x.X, cx)
+	case *ssa.TypeAssert:
+		w.val(x.X, cx)
+	case *ssa.Extract:
+		if call, ok := x.Tuple.(*ssa.Call); ok {
+			w.res(call, x.Index, cx)
+		} else {
+			w.val(x.Tuple, cx)
+		}
+	case *ssa.Next:
+		w.val(x.Iter, cx)
+	case *ssa.Range:
+		w.val(x.X, cx)
+	case *ssa.Phi:
+		for _, e := range x.Edges {
+			w.val(e, cx)
+		}
+		for _, p := range x.Block().Preds {
+			w.ctrl(p, cx)
+			if len(p.Succs) == 2 {
+				if ifi, ok := p.Instrs[len(p.Instrs)-1].(*ssa.If); ok {
+					w.val(ifi.Cond, cx)
+				}
+			}
+		}
+	case *ssa.Call:
+		w.res(x, 0, cx)
+	default:
+		w.unknown(fmt.Sprintf("a value of shape %T", v))
+	}
+}
+
+// ---- kinds
+
+func (o *c06Of) newKind(name string, pseudo bool, roots []*ssa.Function) *c06OfKind {
+	k := &c06OfKind{name: name, pseudo: pseudo, roots: roots}
+	o.finishKind(k)
+	return k
+}
+
+func (o *c06Of) finishKind(k *c06OfKind) {
+	k.cg = o.cx.buildCG(k.roots, false)
+	k.sites, k.undc = nil, nil
+	k.writes = map[c06Loc][]*ssa.Function{}
+	k.trans = map[*ssa.Function]map[c06Loc]bool{}
+	k.events = map[*ssa.Function][]ssa.Instruction{}
+	k.hasEv = map[*ssa.Function]bool{}
+	addEv := func(fn *ssa.Function, in ssa.Instruction) {
+		for _, x := range k.events[fn] {
+			if x == in {
+				return
+			}
+		}
+		k.events[fn] = append(k.events[fn], in)
+	}
+	for _, s := range c06AllWriteSites(k.cg.order, k.cg) {
+		if s.undc != "" {
+			k.undc = append(k.undc, s)
+			addEv(s.fn, s.in)
+			continue
+		}
+		if o.unobs[s.loc] {
+			continue
+		}
+		if k.trans[s.fn] == nil {
+			k.trans[s.fn] = map[c06Loc]bool{}
+		}
+		k.trans[s.fn][s.loc] = true
+		dup := false
+		for _, f := range k.writes[s.loc] {
+			if f == s.fn {
+				dup = true
+			}
+		}
+		if !dup {
+			k.writes[s.loc] = append(k.writes[s.loc], s.fn)
+		}
+		if o.selfMaint[s.loc] {
+			continue
+		}
+		k.sites = append(k.sites, s)
+		addEv(s.fn, s.in)
+	}
+	for _, fn := range k.cg.order {
+		for _, b := range fn.Blocks {
+			for _, in := range b.Instrs {
+				if _, ok := in.(*ssa.Panic); ok {
+					addEv(fn, in)
+				}
+			}
+		}
+	}
+	for _, fn := range k.cg.order {
+		if len(k.events[fn]) > 0 {
+			k.hasEv[fn] = true
+		}
+	}
+	for changed := true; changed; {
+		changed = false
+		for _, fn := range k.cg.order {
+			for _, b := range fn.Blocks {
+				for _, in := range b.Instrs {
+					ci, ok := in.(ssa.CallInstruction)
+					if !ok {
+						continue
+					}
+					for _, callee := range k.cg.out[ci] {
+						if k.hasEv[callee] && !k.hasEv[fn] {
+							k.hasEv[fn] = true
+							changed = true
+						}
+						for l := range k.trans[callee] {
+							if k.trans[fn] == nil {
+								k.trans[fn] = map[c06Loc]bool{}
+							}
+							if !k.trans[fn][l] {
+								k.trans[fn][l] = true
+								changed = true
+							}
+						}
+					}
+				}
+			}
+		}
+	}
+	// calls that lead to an event are events of the caller
+	for _, fn := range k.cg.order {
+		for _, b := range fn.Blocks {
+			for _, in := range b.Instrs {
+				if ci, ok := in.(ssa.CallInstruction); ok {
+					for _, callee := range k.cg.out[ci] {
+						if k.hasEv[callee] {
+							addEv(fn, in)
+						}
+					}
+				}
+			}
+		}
+	}
+}
+
+// c06OfRealMethod: the method behind a method-expression thunk stored in corpusMergeFunc.
+func c06OfRealMethod(f *ssa.Function) *ssa.Function {
+	if f.Synthetic == "" {
+		return f
+	}
+	var callee *ssa.Function
+	for _, c := range CallsIn(f, false) {
+		if x := c.Callee(); x != nil {
+			if callee != nil && callee != x {
+				return f
+			}
+			callee = x
+		}
+	}
+	if callee == nil {
+		return f
+	}
+	return callee
+}
+
+func (o *c06Of) buildKinds() {
+	cx, p, r := o.cx, o.cx.p, o.cx.r
+	const rule = "K-order-free"
+	realOf := map[*ssa.Function]*c06OfKind{}
+	for _, key := range cx.mergeKeys {
+		f := cx.mergeRoot[key]
+		if f == nil {
+			continue
+		}
+		real := c06OfRealMethod(f)
+		k := o.newKind(key, false, []*ssa.Function{real})
+		o.kinds = append(o.kinds, k)
+		o.byName[key] = k
+		realOf[real] = k
+	}
+	// direct mergers: *Corpus methods the drivers call themselves
+	addBlob := p.Func(c06Rel, "Corpus", "addBlob")
+	scanFn := p.Func(c06Rel, "Corpus", "scanFromStorage")
+	scanPrefix := p.Func(c06Rel, "Corpus", "scanPrefix")
+	o.drivers = map[*ssa.Function]bool{addBlob: true, scanFn: true, scanPrefix: true}
+	seen := map[*ssa.Function]bool{}
+	var direct []*ssa.Function
+	for _, d := range []*ssa.Function{addBlob, scanPrefix} {
+		for _, c := range CallsIn(d, true) {
+			h := c.Callee()
+			if h == nil || h.Blocks == nil || seen[h] || o.drivers[TopFunc(h)] || cx.mergeImpl[h] || h.Signature.Recv() == nil || NamedOf(h.Signature.Recv().Type()) != cx.tCorpus {
+				continue
+			}
+			seen[h] = true
+			direct = append(direct, h)
+		}
+	}
+	var pseudoRoots []*ssa.Function
+	for _, h := range direct {
+		probe := o.newKind("?", true, []*ssa.Function{h})
+		var reach []*c06OfKind
+		for real, k := range realOf {
+			if probe.cg.funcs[real] {
+				reach = append(reach, k)
+			}
+		}
+		switch {
+		case len(reach) == 1:
+			k := reach[0]
+			k.roots = append(k.roots, h)
+			o.finishKind(k)
+		case len(reach) > 1:
+			r.Undecided(rule, FuncKey(h)+"#kind", p.Pos(h.Pos()), c06FnName(h)+" is called by the merge drivers and reaches the merge functions of several row kinds: it cannot be attributed to one kind")
+		case len(probe.sites) > 0 || len(probe.undc) > 0:
+			pseudoRoots = append(pseudoRoots, h)
+		}
+	}
+	if len(pseudoRoots) > 0 {
+		sort.Slice(pseudoRoots, func(i, j int) bool { return FuncKey(pseudoRoots[i]) < FuncKey(pseudoRoots[j]) })
+		var names []string
+		for _, h := range pseudoRoots {
+			names = append(names, h.Name())
+		}
+		k := o.newKind("(direct:"+strings.Join(names, "+")+")", true, pseudoRoots)
+		o.kinds = append(o.kinds, k)
+		o.byName[k.name] = k
+	}
+	sort.Slice(o.kinds, func(i, j int) bool { return o.kinds[i].name < o.kinds[j].name })
+}
+
+// ---- both paths merge kind a before kind b
+
+func (o *c06Of) orderedBefore(a, b *c06OfKind) string {
+	key := [2]*c06OfKind{a, b}
+	if s, ok := o.ordCache[key]; ok {
+		return s
+	}
+	o.ordCache[key] = ""
+	if a == b || a.pseudo || b.pseudo {
+		return ""
+	}
+	cx, p := o.cx, o.cx.p
+	addBlob := p.Func(c06Rel, "Corpus", "addBlob")
+	scanFn := p.Func(c06Rel, "Corpus", "scanFromStorage")
+	scanPrefix := p.Func(c06Rel, "Corpus", "scanPrefix")
+	// live: a direct merger of kind a, given addBlob's mutation map, success-dominates the row dispatch
+	var dispatch ssa.Instruction
+	for _, c := range CallsIn(addBlob, false) {
+		if c.Value() == nil || c.Common().IsInvoke() || c.Callee() != nil {
+			continue
+		}
+		if lk, ok := originValue(c.Common().Value).(*ssa.Lookup); ok && c06LoadsGlobal(lk.X, cx.gMerge) {
+			if dispatch != nil {
+				return ""
+			}
+			dispatch = c.Instr
+		}
+	}
+	if dispatch == nil {
+		return ""
+	}
+	live := ""
+	for _, c := range CallsIn(addBlob, false) {
+		h := c.Callee()
+		if h == nil || c.Value() == nil {
+			continue
+		}
+		isRoot := false
+		for _, rt := range a.roots {
+			if rt == h {
+				isRoot = true
+			}
+		}
+		if !isRoot {
+			continue
+		}
+		given := false
+		for _, arg := range c.Args() {
+			if prm, ok := originValue(arg).(*ssa.Parameter); ok && prm.Parent() == addBlob && NamedOf(prm.Type()) == cx.tMM {
+				given = true
+			}
+		}
+		if !given {
+			continue
+		}
+		if ok, _ := SuccessDominates(c.Value(), dispatch); ok {
+			live = h.Name() + "(mm) succeeds before the rows of mm.kv are dispatched"
+		}
+	}
+	if live == "" {
+		return ""
+	}
+	// load: an explicit scan of a's prefix success-dominates every scan that can deliver b's rows
+	var head *ssa.Call
+	type scan struct {
+		anchor ssa.Instruction
+		kind   string // "" = ranged
+	}
+	var scans []scan
+	for _, c := range CallsIn(scanFn, true) {
+		if c.Callee() != scanPrefix {
+			continue
+		}
+		var anchor ssa.Instruction = c.Instr
+		if c.Fn != scanFn {
+			anchor = nil
+			lit := c.Fn
+			for lit.Parent() != nil && lit.Parent() != scanFn {
+				lit = lit.Parent()
+			}
+			for _, blk := range scanFn.Blocks {
+				for _, in := range blk.Instrs {
+					if mc, ok := in.(*ssa.MakeClosure); ok && mc.Fn == ssa.Value(lit) {
+						anchor = mc
+					}
+				}
+			}
+			if anchor == nil {
+				return ""
+			}
+		}
+		kind := ""
+		args := c.Args()
+		if pfx, complete := cx.keyPrefix(args[len(args)-1], 0); complete {
+			if kd, ok := c06SplitKind(pfx, true); ok {
+				kind = kd.typ
+			}
+		}
+		if kind == a.name && c.Fn == scanFn && c.Value() != nil {
+			if head != nil {
+				return ""
+			}
+			head = c.Value()
+		}
+		scans = append(scans, scan{anchor, kind})
+	}
+	if head == nil {
+		return ""
+	}
+	explicitB := false
+	for _, s := range scans {
+		if s.kind == b.name {
+			explicitB = true
+		}
+	}
+	n := 0
+	for _, s := range scans {
+		if s.kind == a.name {
+			continue
+		}
+		if (explicitB && s.kind != b.name) || (!explicitB && s.kind != "") {
+			continue
+		}
+		if ok, _ := SuccessDominates(head, s.anchor); !ok {
+			return ""
+		}
+		n++
+	}
+	if n == 0 {
+		return ""
+	}
+	res := "load: scanFromStorage scans the '" + a.name + "' rows, successfully, before it starts the scan that delivers '" + b.name + "' rows; live: " + live
+	o.ordCache[key] = res
+	return res
+}
+
+// ---- the rule
+
+type c06OfFinding struct {
+	pos    token.Pos
+	owners []string
+	fns    []string
+}
+
+func c06RuleOrderFree(cx *c06Ctx) {
+	const rule = "K-order-free"
+	p, r := cx.p, cx.r
+	o := &c06Of{cx: cx, byName: map[string]*c06OfKind{}, unobs: map[c06Loc]bool{}, intern: map[c06Loc]string{}, selfMaint: map[c06Loc]bool{},
+		cdCache: map[*ssa.Function]map[*ssa.BasicBlock][]*ssa.BasicBlock{}, detCache: map[*ssa.Function]int{}, usedDet: map[*ssa.Function]bool{}, ordCache: map[[2]*c06OfKind]string{}}
+	o.findUnobservable()
+	o.findInternTables()
+	o.buildKinds()
+	n := 0
+	corpusPos := p.Pos(cx.tCorpus.Obj().Pos())
+	locNames := func(m map[c06Loc]bool) []string {
+		var out []string
+		for l := range m {
+			out = append(out, l.String())
+		}
+		sort.Strings(out)
+		return out
+	}
+	if len(o.kinds) < 2 {
+		r.Undecided(rule, "pkg/index.corpusMergeFunc#kinds", corpusPos, "fewer than two row kinds with a merge function were found: the rule has nothing to compare")
+		r.Floor(rule, 20)
+		return
+	}
+	for _, l := range locNames(o.unobs) {
+		n++
+		r.OKTable(rule, "pkg/index."+l+"#never-read", corpusPos, l+" is only ever read to be written back (a counter): a write of it is not an observable effect of a merge")
+	}
+	for loc, pr := range o.intern {
+		n++
+		if pr == "" {
+			r.OKTable(rule, "pkg/index."+loc.String()+"#identity-table", corpusPos, "every update of "+loc.String()+" is M[k] = k and the map is used only through the field: a lookup that succeeds yields its key, and skipping an update for a key already present cannot change the table, so its maintenance is not a merge effect")
+		} else {
+			r.OKTable(rule, "pkg/index."+loc.String()+"#keyed-by-field", corpusPos, "every update of "+loc.String()+" is M[v."+pr+"] = v for an object made there, and field "+pr+" is never written on an existing object: ."+pr+" of what a successful lookup yields equals the key")
+		}
+	}
+	owners := map[c06Loc][]*c06OfKind{}
+	for _, k := range o.kinds {
+		for l := range k.writes {
+			owners[l] = append(owners[l], k)
+		}
+	}
+	// classify: "" free/own, "ordered: why", or foreign (returns owner kinds)
+	classify := func(k *c06OfKind, l c06Loc) (foreign []*c06OfKind, ordered string) {
+		var others []*c06OfKind
+		for _, ow := range owners[l] {
+			if ow != k {
+				others = append(others, ow)
+			}
+		}
+		if len(others) == 0 {
+			return nil, ""
+		}
+		why := ""
+		for _, ow := range others {
+			s := o.orderedBefore(ow, k)
+			if s == "" {
+				return others, ""
+			}
+			why = s
+		}
+		return nil, why
+	}
+	type result struct {
+		foreign map[c06Loc]*c06OfFinding
+		ordered map[c06Loc]string
+		own     map[c06Loc]bool
+		unk     []string
+	}
+	assess := func(k *c06OfKind, w *c06OfWalk, res *result) {
+		for l, pos := range w.tags {
+			fk, ord := classify(k, l)
+			switch {
+			case len(fk) > 0:
+				if res.foreign[l] == nil {
+					f := &c06OfFinding{pos: pos}
+					for _, ow := range fk {
+						f.owners = append(f.owners, "'"+ow.name+"'")
+						for _, fn := range ow.writes[l] {
+							f.fns = append(f.fns, c06FnName(fn))
+						}
+					}
+					sort.Strings(f.owners)
+					f.fns = c06Dedupe(f.fns)
+					sort.Strings(f.fns)
+					res.foreign[l] = f
+				}
+			case ord != "":
+				res.ordered[l] = ord
+			case len(owners[l]) > 0:
+				res.own[l] = true
+			}
+		}
+		for _, u := range w.unk {
+			res.unk = append(res.unk, u)
+		}
+	}
+	newResult := func() *result {
+		return &result{foreign: map[c06Loc]*c06OfFinding{}, ordered: map[c06Loc]string{}, own: map[c06Loc]bool{}}
+	}
+	loadOrder := func(owner string) string {
+		return "a restart merges kind by kind in slurpPrefixes order (scanFromStorage: every 'meta' and 'signerkeyid' row first, the rest concurrently), the live corpus merges rows in arrival order and, within one mutation map, in Go map order"
+	}
+	report := func(k *c06OfKind, construct string, site string, res *result, what string, okDetail string) {
+		n++
+		if len(res.unk) > 0 {
+			r.Undecided(rule, construct, site, what+": the dependence analysis cannot follow "+strings.Join(c06Dedupe(res.unk), "; "))
+			return
+		}
+		if len(res.foreign) == 0 {
+			ord := ""
+			if len(res.ordered) > 0 {
+				var parts []string
+				for _, l := range locNames(func() map[c06Loc]bool {
+					m := map[c06Loc]bool{}
+					for l := range res.ordered {
+						m[l] = true
+					}
+					return m
+				}()) {
+					parts = append(parts, l)
+				}
+				var why string
+				for _, s := range res.ordered {
+					why = s
+				}
+				ord = "; also on " + strings.Join(parts, ", ") + ", filled by a kind that both paths merge first (" + why + "; that the entry consulted is the one carried by the same mutation map is not decided)"
+			}
+			own := "the row alone"
+			if len(res.own) > 0 {
+				own = "the row and state only '" + k.name + "' rows fill (" + strings.Join(locNames(res.own), ", ") + ")"
+			}
+			r.OK(rule, construct, site, okDetail+" depend(s) on "+own+ord)
+			return
+		}
+		var ls []c06Loc
+		for l := range res.foreign {
+			ls = append(ls, l)
+		}
+		sort.Slice(ls, func(i, j int) bool { return ls[i].String() < ls[j].String() })
+		for _, l := range ls {
+			f := res.foreign[l]
+			pos := site
+			if f.pos != token.NoPos {
+				pos = p.Pos(f.pos)
+			}
+			r.Violation(rule, construct+"@"+l.String(), pos, fmt.Sprintf("%s depends on %s, which is filled by the merge of %s rows (%s): %s — so whether a '%s' row takes effect depends on which rows were merged before it, and the live corpus can differ for good from one reloaded from the same rows",
+				what, l, strings.Join(f.owners, ", "), strings.Join(f.fns, ", "), loadOrder(""), k.name))
+		}
+	}
+	nConds := 0
+	for _, k := range o.kinds {
+		for ci, why := range k.cg.unresolved {
+			n++
+			r.Undecided(rule, FuncKey(ci.Parent())+"#order-free-call:"+k.name, p.Pos(ci.Pos()), "a call made while merging '"+k.name+"' rows cannot be resolved ("+why+"): writes and the conditions guarding them may be missed")
+		}
+		for _, s := range k.undc {
+			n++
+			r.Undecided(rule, FuncKey(s.fn)+"#order-free-write:"+k.name, p.Pos(s.in.Pos()), "while merging '"+k.name+"' rows, "+c06FnName(s.fn)+" "+s.how+" a reference that cannot be followed to the state it belongs to ("+s.undc+")")
+		}
+		fns := append([]*ssa.Function(nil), k.cg.order...)
+		sort.Slice(fns, func(i, j int) bool { return FuncKey(fns[i]) < FuncKey(fns[j]) })
+		for _, fn := range fns {
+			if len(k.events[fn]) == 0 {
+				continue
+			}
+			ctl := map[*ssa.BasicBlock]bool{}
+			for _, in := range k.events[fn] {
+				o.controllers(in.Block(), ctl)
+			}
+			if len(ctl) == 0 {
+				continue
+			}
+			res := newResult()
+			var blocks []*ssa.BasicBlock
+			for b := range ctl {
+				blocks = append(blocks, b)
+			}
+			sort.Slice(blocks, func(i, j int) bool { return blocks[i].Index < blocks[j].Index })
+			for _, b := range blocks {
+				w := o.newWalk(k)
+				w.val(c06OfCond(b), nil)
+				assess(k, w, res)
+			}
+			nConds += len(blocks)
+			report(k, FuncKey(fn)+"#order-free:"+k.name, p.Pos(fn.Pos()), res,
+				fmt.Sprintf("whether %s, merging a '%s' row, writes corpus state (or panics, or goes on to a function that does)", c06FnName(fn), k.name),
+				fmt.Sprintf("the %d branch condition(s) that decide whether %s writes corpus state, panics or calls on", len(blocks), c06FnName(fn)))
+		}
+		for _, root := range k.roots {
+			ei := ErrResultIndex(root)
+			if ei < 0 {
+				continue
+			}
+			res := newResult()
+			w := o.newWalk(k)
+			for _, ri := range Returns(root) {
+				// which non-nil error, and whether one is returned at all: the returns of a
+				// constant nil are the complement and add nothing
+				if ei >= len(ri.Results) || IsNilConst(ri.Results[ei]) {
+					continue
+				}
+				w.val(ri.Results[ei], nil)
+				w.ctrl(ri.Ret.Block(), nil)
+			}
+			assess(k, w, res)
+			report(k, FuncKey(root)+"#result:"+k.name, p.Pos(root.Pos()), res,
+				fmt.Sprintf("which error %s returns for a '%s' row (a non-nil error makes addBlob / scanPrefix abandon the remaining rows)", c06FnName(root), k.name),
+				"the error result")
+		}
+		// which VALUE is written: weaker, reported as a note only
+		notes := map[string]bool{}
+		for _, s := range k.sites {
+			var vals []ssa.Value
+			switch x := s.in.(type) {
+			case *ssa.Store:
+				vals = append(vals, x.Val)
+			case *ssa.MapUpdate:
+				vals = append(vals, x.Key, x.Value)
+			}
+			for _, v := range vals {
+				w := o.newWalk(k)
+				w.val(v, nil)
+				for l := range w.tags {
+					if fk, _ := classify(k, l); len(fk) > 0 {
+						var ows []string
+						for _, ow := range fk {
+							ows = append(ows, "'"+ow.name+"'")
+						}
+						sort.Strings(ows)
+						notes[fmt.Sprintf("%s (%s %s) uses %s, also written by %s rows", c06FnName(s.fn), s.how, s.loc, l, strings.Join(ows, "/"))] = true
+					}
+				}
+			}
+		}
+		if len(notes) > 0 {
+			var ns []string
+			for s := range notes {
+				ns = append(ns, s)
+			}
+			sort.Strings(ns)
+			r.Note("K-order-free (which value, not whether — not an obligation) merging '%s' rows: %s", k.name, strings.Join(ns, "; "))
+		}
+	}
+	{
+		var ks []string
+		for _, k := range o.kinds {
+			var rs []string
+			for _, rt := range k.roots {
+				rs = append(rs, rt.Name())
+			}
+			ks = append(ks, k.name+"="+strings.Join(rs, "+"))
+		}
+		r.Note("K-order-free: row kinds and their merge entry points: %s", strings.Join(ks, " "))
+	}
+	// functions proved transparent (those a slice actually went through)
+	{
+		var det []*ssa.Function
+		for fn := range o.usedDet {
+			det = append(det, fn)
+		}
+		sort.Slice(det, func(i, j int) bool { return FuncKey(det[i]) < FuncKey(det[j]) })
+		for _, fn := range det {
+			n++
+			r.OK(rule, FuncKey(fn)+"#determined", p.Pos(fn.Pos()), fmt.Sprintf("every return of %s yields the same function of parameter %s (the parameter, a conversion of it, or what an interning table holds under it on the `present` edge): its result carries no dependence on corpus state", c06FnName(fn), fn.Params[o.determined(fn)].Name()))
+		}
+	}
+	r.Analysed("order_free_kinds", len(o.kinds))
+	r.Analysed("order_free_conditions", nConds)
+	r.Analysed("order_free_obligations", n)
+	r.Floor(rule, 34) // today 38: 3 table facts + 3 transparent helpers + 20 functions with guarded effects + 12 entry-point results
 }
